@@ -208,6 +208,8 @@ Definition mk_data (cfg : config) (ins : list input) : result data :=
         let locs := map (nth_or (Build_loc 0 0 0 0) (i_locs first)) sI in
         (* indices recomputed with the filtered times as the user list *)
         let timesI2 := common_indices tkeys (Some times) in
+        if is_nil times then Error E_times          (* -d / -tod left no time: "No valid times selected" *)
+        else
         OK {| d_inputs := all; d_has_clim := match c_clim cfg with Some _ => true | None => false end;
               d_clim_divide := c_clim_divide cfg; d_obs_range := c_obs_range cfg;
               d_times := times; d_leads := leads; d_locs := locs;
